@@ -88,6 +88,8 @@ def _one(args):
                                 eps = 1e-12
                                 db, do = vals[("d", "b")], vals[("d", "o")]
                                 bad = []
+                                if isnan(db) or isnan(do):
+                                    continue          # a metric undefined on every group of the stratum: nothing to compare
                                 if not (db >= -eps and do >= -eps):
                                     bad.append("difference < 0")
                                 for k in ("b", "o"):
